@@ -18,7 +18,7 @@ theorem bind_spec (fid : String) (params rets : List Param) (ev : Ctx) (k : Nat)
     (h : WellFormed params rets ev k) :
     ∃ f0 f, createFlowInstance fid params rets ev = .ok f0 ∧ startFlow false ev f0 = .ok f ∧
       (∀ i (hi : i < params.length), lookup (.name params[i].name) f.context = some (specVal ev k i params[i])) ∧
-      (∀ i (hi : i < params.length), lookup (.name params[i].name) f.arguments = some (specVal ev k i params[i])) :=
+      (∀ i (hi : i < params.length), lookup (argKey params[i].name) f.arguments = some (specVal ev k i params[i])) :=
   bind_spec_core fid params rets ev k h
 
 /-- non-vacuity: `flow f $a $b=2 $c` called as `f(10, c=30)` -/
@@ -33,15 +33,12 @@ example : WellFormed [⟨"a", none⟩, ⟨"b", some (.lit (.int 2))⟩, ⟨"c", 
       simp only [Key.pos.injEq, eq_iff_iff, iff_false]; omega
     simp [lookup, this]
 
-/-- **Binding at call level**.  The hypothesis `noReserved` of `WellFormedCall` (no parameter is named
-    like an internal StartFlow key) is what the proposed parser fix `fixes/C08-reserved-parameter-names.diff`
-    guarantees for every accepted program; on the unpatched tree it excludes exactly the region of the
-    open finding `reserved-parameter-name`.  For the StartFlow event the
-    interpreter builds from the user's arguments `ua` (adding flow_id, flow_instance_uid, activated,
-    source_flow_instance_uid, source_head_uid, flow_hierarchy_position), parameter `i` holds the
-    statement's value computed from `ua` alone.
-    Full statement (false as the code is, see `reserved_name_as_is_counterexample`): the same
-    without `noReserved`. -/
+/-- **Binding at call level**, full strength (the REPAIRED binding of
+    `fixes/C08-reserved-parameter-names-v2.diff`; no restriction on parameter names).  For the StartFlow
+    event the interpreter builds from the user's arguments `ua` (adding flow_id, flow_instance_uid,
+    activated, source_flow_instance_uid, source_head_uid, flow_hierarchy_position), parameter `i` holds
+    the statement's value computed from `ua` alone: positional `i`, else the caller's named argument
+    (which travels under `flow_argument_key`), else the declared default, else None. -/
 theorem bind_spec_call (params rets : List Param) (ua : Ctx) (k : Nat) (form : CallForm) (flow : String)
     (n caller : Nat) (h : WellFormedCall params rets ua k) :
     ∃ f0 f, createFlowInstance flow params rets (startArgs ua form flow n caller) = .ok f0 ∧
@@ -49,12 +46,13 @@ theorem bind_spec_call (params rets : List Param) (ua : Ctx) (k : Nat) (form : C
       ∀ i (hi : i < params.length), lookup (.name params[i].name) f.context = some (specVal ua k i params[i]) := by
   obtain ⟨f0, f, h1, h2, h3, _⟩ := bind_spec_core flow params rets _ k (wellFormed_of_call params rets ua k form flow n caller h)
   refine ⟨f0, f, h1, h2, fun i hi => ?_⟩
-  rw [h3 i hi, specVal_startArgs params ua k form flow n caller i hi (h.noReserved _ (List.getElem_mem hi)).1]
+  rw [h3 i hi, specVal_startArgs]
 
-/-- non-vacuity of `WellFormedCall`: `f(10, c=30)` for `flow f $a $b=2 $c` -/
-example : WellFormedCall [⟨"a", none⟩, ⟨"b", some (.lit (.int 2))⟩, ⟨"c", none⟩] []
-    [(.pos 0, .int 10), (.name "c", .int 30)] 1 := by
-  refine ⟨by decide, by decide, by simp [lookup], by simp, by simp, ?_, ?_⟩
+/-- non-vacuity of `WellFormedCall`, with reserved parameter names: `f(10, flow_id=30)` for
+    `flow f $a $activated=2 $flow_id` (the user's `flow_id=` travels under the key `"$flow_id"`) -/
+example : WellFormedCall [⟨"a", none⟩, ⟨"activated", some (.lit (.int 2))⟩, ⟨"flow_id", none⟩] []
+    [(.pos 0, .int 10), (.arg "flow_id", .int 30)] 1 := by
+  refine ⟨by decide, by simp [lookup], by simp, by simp, ?_, ?_⟩
   · intro i hi; have : i = 0 := by omega
     subst this; simp [lookup]
   · intro i hi
@@ -62,27 +60,38 @@ example : WellFormedCall [⟨"a", none⟩, ⟨"b", some (.lit (.int 2))⟩, ⟨"
       simp only [Key.pos.injEq, eq_iff_iff, iff_false]; omega
     simp [lookup, this]
 
-/-- Kernel-checked counterexample for the code as it is (open finding `reserved-parameter-name`):
-    `flow fa $flow_id="dflt"` called as `await fa` binds `$flow_id` to the flow's own name, while the
-    statement's value is the declared default. (finite fact, by evaluation) -/
-theorem reserved_name_as_is_counterexample :
+/-- the repaired binding on the former counterexample: `flow fa $flow_id="dflt"` called as `await fa`
+    binds the declared default (finite fact, by evaluation) -/
+theorem reserved_name_repaired_witness :
     ∃ f0 f, createFlowInstance "fa" [⟨"flow_id", some (.lit (.str "dflt"))⟩] [] (startArgs [] .await "fa" 1 0) = .ok f0 ∧
+      startFlow false (startArgs [] .await "fa" 1 0) f0 = .ok f ∧
+      lookup (.name "flow_id") f.context = some (.str "dflt") := by
+  refine ⟨_, _, rfl, rfl, ?_⟩
+  simp [startFlow, startArgs, matchArgs, Bind.set, lookup, bindNamed, bindPos, bindRet, startLoop, keys,
+    Param.dfltVal, eval, has, argKey, reservedNames, paramOfKey]
+
+/-- Kernel-checked counterexample for the code as it is WITHOUT the repair (finding
+    `reserved-parameter-name`, open until the fix is applied): `flow fa $flow_id="dflt"` called as
+    `await fa` binds `$flow_id` to the flow's own name, while the statement's value is the declared
+    default. (finite fact, by evaluation) -/
+theorem reserved_name_as_is_counterexample :
+    ∃ f0 f, createFlowInstanceAsIs "fa" [⟨"flow_id", some (.lit (.str "dflt"))⟩] [] (startArgs [] .await "fa" 1 0) = .ok f0 ∧
       startFlow false (startArgs [] .await "fa" 1 0) f0 = .ok f ∧
       lookup (.name "flow_id") f.context = some (.str "fa") ∧
       specVal [] 0 0 ⟨"flow_id", some (.lit (.str "dflt"))⟩ = .str "dflt" := by
   refine ⟨_, _, rfl, rfl, ?_, ?_⟩ <;>
-    simp [createFlowInstance, startFlow, startArgs, matchArgs, Bind.set, lookup, bindNamed, bindPos, bindRet, startLoop, keys,
-      specVal, namedVal, Param.dfltVal, eval, has]
+    simp [startFlow, startArgs, matchArgs, Bind.set, lookup, bindNamedAsIs, bindPosAsIs, bindRet, startLoop, keys,
+      specVal, namedVal, Param.dfltVal, eval, has, argKey, reservedNames, paramOfKey]
 
 /-- **Named/positional clash** (observed behaviour, documented): when parameter `i` is given both
     positionally and by name, the positional value is bound (context and `arguments`), whatever the
     named value is. -/
 theorem named_positional_clash (fid : String) (params rets : List Param) (ev : Ctx) (k : Nat)
     (h : WellFormed params rets ev k) (i : Nat) (hi : i < params.length) (hik : i < k)
-    (w : Val) (_hnamed : lookup (.name params[i].name) ev = some w) :
+    (w : Val) (_hnamed : lookup (argKey params[i].name) ev = some w) :
     ∃ f0 f v, createFlowInstance fid params rets ev = .ok f0 ∧ startFlow false ev f0 = .ok f ∧
       lookup (.pos i) ev = some v ∧ lookup (.name params[i].name) f.context = some v ∧
-      lookup (.name params[i].name) f.arguments = some v := by
+      lookup (argKey params[i].name) f.arguments = some v := by
   obtain ⟨f0, f, h1, h2, h3, h4⟩ := bind_spec_core fid params rets ev k h
   obtain ⟨v, hv⟩ := Option.isSome_iff_exists.1 (h.pos i hik)
   refine ⟨f0, f, v, h1, h2, hv, ?_, ?_⟩
@@ -108,7 +117,8 @@ theorem surplus_positional_witness :
       startFlow false
         [(.pos 0, .int 0), (.pos 1, .int 1), (.pos 2, .int 2), (.name "source_flow_instance_uid", .str "m"), (.name "source_head_uid", .str "h")] f0 = .error .tooMany) := by
   refine ⟨⟨_, rfl, ?_⟩, ⟨_, rfl, ?_⟩⟩ <;>
-    simp [startFlow, Bind.set, lookup, bindNamed, bindPos, bindRet, startLoop, keys, has, Except.isOk, Except.toBool]
+    simp [startFlow, Bind.set, lookup, bindNamed, bindPos, bindRet, startLoop, keys, has, Except.isOk, Except.toBool,
+      argKey, reservedNames, paramOfKey]
 
 /-- **Return value reaches the caller**: after `return v` in the callee, the Finished event carries
     `return_value = v` (whatever the callee's parameters are called), the caller's expanded
@@ -140,6 +150,25 @@ theorem locals_private (flows : List (String × FlowDef)) (fuel : Nat) (s : St) 
     (hfresh : Fresh s) (hw : w ≠ u) (hlt : w < s.next) :
     findInst w (exec flows fuel s u body).1.insts = findInst w s.insts :=
   (exec_good flows fuel s u body w hfresh hw hlt).1
+
+/-- **Global context, whole executions** (by induction on the execution): a global variable `k`
+    that no flow instance has declared `global` by the end of the execution — contexts never lose
+    keys, so: that no instance declared at any time — has the value it had before.  Only keys
+    declared `global` by some instance can change; in particular, same-named *local* assignments in
+    any caller, callee or sibling never reach the global context. -/
+theorem globals_private (flows : List (String × FlowDef)) (fuel : Nat) (s : St) (u : Nat) (body : List Stmt)
+    (hu : (findInst u s.insts).isSome) (k : String)
+    (hk : ¬ DeclaredIn (exec flows fuel s u body).1 k) :
+    lookup (.name k) (exec flows fuel s u body).1.globals = lookup (.name k) s.globals :=
+  (exec_gstep flows fuel s u body hu).2 k hk
+
+/-- non-vacuity: after `$g = 1` in an instance that did not declare `$g`, nobody has declared it -/
+example : ¬ DeclaredIn (exec [] 5 { insts := [(0, { flowId := "main", arguments := [], context := [] })], next := 1 } 0
+    [.assign "g" (.lit (.int 1))]).1 "g" := by
+  rintro ⟨w, f, hf, hk⟩
+  simp [exec, St.evalIn, St.ctxOf, St.setCtx, findInst, replaceInst, assignCtx, has, lookup, eval, globalKey, Bind.set] at hf hk
+  obtain ⟨_, rfl⟩ := hf
+  simp [lookup] at hk
 
 /-- non-vacuity: a state with two instances having a same-named variable -/
 example : Fresh { insts := [(0, { flowId := "main", arguments := [], context := [(.name "v", .int 1)] }),
